@@ -232,6 +232,9 @@ func someTok(r *rand.Rand) tok {
 func (g *gobGen) mutateToks(ts []tok, entry bool) ([]tok, string) {
 	r := g.r
 	out := append([]tok{}, ts...)
+	if len(out) == 0 {
+		return []tok{someTok(r)}, "insert"
+	}
 	switch r.Intn(7) {
 	case 0: // drop one value
 		i := r.Intn(len(out))
